@@ -413,11 +413,16 @@ Qed.
 
 (* ---- the default table -------------------------------------------------- *)
 
+(* handleCTCPFinger answers nothing when client.conn is nil (since 187fc3e) *)
+Definition finger_silent (v : env) (c : ctcp_event) : bool :=
+  negb (connected v) && streqb (c_command c) CTCP_FINGER.
+
 Definition default_reply (v : env) (c : ctcp_event) : res (list event) :=
   if c_reply c then Ok [] else
   match c_source c with
   | None => Ok []
   | Some name =>
+      if finger_silent v c then Ok [] else
       Ok [notice (to_rfc1459 name)
             (encode_ctcp_raw (c_command c) (answer_text v (c_command c) (c_text c)))]
   end.
@@ -433,34 +438,20 @@ Qed.
 Lemma lookup_wildcard_default v : lookup ctcp_wildcard (default_table v) = None.
 Proof. reflexivity. Qed.
 
-(* handleCTCPFinger dereferences client.conn: the one way the default table can panic *)
-Definition finger_crash (v : env) (c : ctcp_event) : bool :=
-  negb (connected v) && streqb (c_command c) CTCP_FINGER && negb (c_reply c) &&
-  match c_source c with Some _ => true | None => false end.
-
-Lemma lookup_default_known_gen v c : known_query (c_command c) ->
-  exists h, lookup (c_command c) (default_table v) = Some h /\
-            h c = if finger_crash v c then Panic else default_reply v c.
+Lemma lookup_default_known v c : known_query (c_command c) ->
+  exists h, lookup (c_command c) (default_table v) = Some h /\ h c = default_reply v c.
 Proof.
   intros Hk. destruct c as [src cmd text reply]. cbn [c_command] in *.
   unfold known_query in Hk. cbn [In] in Hk.
   destruct Hk as [<- | [<- | [<- | [<- | [<- | [<- | []]]]]]];
     (eexists; split; [reflexivity|]);
-    unfold finger_crash, default_reply, handle_ping, handle_pong, handle_version, handle_source,
+    unfold default_reply, finger_silent, handle_ping, handle_pong, handle_version, handle_source,
       handle_time, handle_finger, replier, source_id;
     cbn [c_reply c_source c_command c_text];
-    rewrite ?andb_false_r; cbn [andb];
-    destruct reply; rewrite ?andb_false_r; try reflexivity;
-    destruct src as [name|]; rewrite ?andb_false_r; try reflexivity.
-  - destruct (cfg_version v) eqn:Ev; unfold answer_text; cbn; rewrite Ev; reflexivity.
-  - destruct (connected v); reflexivity.
-Qed.
-
-Lemma lookup_default_known v c : connected v = true -> known_query (c_command c) ->
-  exists h, lookup (c_command c) (default_table v) = Some h /\ h c = default_reply v c.
-Proof.
-  intros Hconn Hk. destruct (lookup_default_known_gen v c Hk) as (h & Hl & Hh).
-  exists h. split; [exact Hl|]. rewrite Hh. unfold finger_crash. rewrite Hconn. reflexivity.
+    destruct reply; try reflexivity;
+    destruct src as [name|]; try reflexivity;
+    destruct (connected v); try reflexivity;
+    destruct (cfg_version v) eqn:Ev; unfold answer_text; cbn; rewrite Ev; reflexivity.
 Qed.
 
 Lemma lookup_default_unknown v k : ~ known_query k -> lookup k (default_table v) = None.
@@ -481,6 +472,14 @@ Proof. apply in_dec. apply list_eq_dec. apply N.eq_dec. Qed.
 Lemma action_unknown : ~ known_query CTCP_ACTION.
 Proof. unfold known_query. cbn [In]. intros [H | [H | [H | [H | [H | [H | []]]]]]]; discriminate H. Qed.
 
+Lemma finger_known : known_query CTCP_FINGER.
+Proof. unfold known_query. cbn [In]. tauto. Qed.
+
+Lemma finger_silent_iff v c : finger_silent v c = true <-> finger_unanswerable v (c_command c).
+Proof.
+  unfold finger_silent, finger_unanswerable. rewrite andb_true_iff, negb_true_iff, streqb_spec. tauto.
+Qed.
+
 (* CTCP.call with the default table, as a function of the decoded event *)
 Definition call_spec (v : env) (c : ctcp_event) : res (list event) :=
   if known_query_dec (c_command c) then default_reply v c else
@@ -493,18 +492,24 @@ Definition call_spec (v : env) (c : ctcp_event) : res (list event) :=
   | None => Ok []
   end.
 
-Lemma ctcp_call_default v c : connected v = true ->
-  ctcp_call (default_table v) c = call_spec v c.
+Lemma ctcp_call_default v c : ctcp_call (default_table v) c = call_spec v c.
 Proof.
-  intros Hconn. unfold ctcp_call, call_spec. rewrite lookup_wildcard_default. cbn [rbind].
+  unfold ctcp_call, call_spec. rewrite lookup_wildcard_default. cbn [rbind].
   destruct (known_query_dec (c_command c)) as [Hk | Hk].
-  - destruct (lookup_default_known v c Hconn Hk) as (h & -> & ->).
+  - destruct (lookup_default_known v c Hk) as (h & -> & ->).
     destruct (default_reply v c); reflexivity.
   - rewrite lookup_default_unknown by exact Hk.
     destruct (streqb (c_command c) CTCP_ACTION); [reflexivity|].
     destruct (c_source c) as [name|]; [|reflexivity]. unfold source_id.
     destruct (negb (c_reply c) && is_valid_nick (to_rfc1459 name)); [|reflexivity].
     rewrite send_reply_ok by discriminate. reflexivity.
+Qed.
+
+Lemma call_spec_total v c : exists outs, call_spec v c = Ok outs.
+Proof.
+  unfold call_spec, default_reply. destruct (known_query_dec _).
+  - destruct (c_reply c); [eauto|]. destruct (c_source c); [|eauto]. destruct (finger_silent v c); eauto.
+  - destruct (streqb _ _); [eauto|]. destruct (c_source c); [|eauto]. destruct (_ && _); eauto.
 Qed.
 
 (* ---- the reply discipline ----------------------------------------------- *)
@@ -524,33 +529,35 @@ Proof. intros (_ & _ & Hr & _) Ht. apply Hr. exact Ht. Qed.
 Lemma message_source e c : ctcp_message e c -> c_source c = ev_source e.
 Proof. intros (_ & _ & _ & Hs). exact Hs. Qed.
 
-Theorem stage_total v e : connected v = true -> exists outs, ctcp_stage (default_table v) e = Ok outs.
+(* the CTCP stage with the default table cannot panic - connected or not *)
+Theorem stage_total_any v e : exists outs, ctcp_stage (default_table v) e = Ok outs.
 Proof.
-  intros Hconn. unfold ctcp_stage. destruct (decode_total e) as ([c|] & ->); cbn [rbind]; [|eauto].
-  rewrite ctcp_call_default by exact Hconn. unfold call_spec, default_reply.
-  destruct (known_query_dec _).
-  - destruct (c_reply c); [eauto|]. destruct (c_source c); eauto.
-  - destruct (streqb _ _); [eauto|]. destruct (c_source c); [|eauto]. destruct (_ && _); eauto.
+  unfold ctcp_stage. destruct (decode_total e) as ([c|] & ->); cbn [rbind]; [|eauto].
+  rewrite ctcp_call_default. apply call_spec_total.
 Qed.
 
-Theorem stage_answers v e outs : connected v = true ->
+Theorem stage_answers v e outs :
   ctcp_stage (default_table v) e = Ok outs -> answers v e outs.
 Proof.
-  intros Hconn. unfold ctcp_stage. destruct (decode_total e) as ([c|] & Hd); rewrite Hd; cbn [rbind].
+  unfold ctcp_stage. destruct (decode_total e) as ([c|] & Hd); rewrite Hd; cbn [rbind].
   2:{ intros [= <-]. apply ans_silent. right. left. apply decode_none_iff. exact Hd. }
   apply decode_exact in Hd. rename Hd into Hm.
   pose proof (message_source _ _ Hm) as Hsrc.
-  rewrite ctcp_call_default by exact Hconn. unfold call_spec, default_reply.
+  rewrite ctcp_call_default. unfold call_spec, default_reply.
   destruct (known_query_dec (c_command c)) as [Hk | Hk].
   - destruct (c_reply c) eqn:Hr.
     { intros [= <-]. apply ans_silent. left. rewrite (message_reply _ _ Hm Hr). exact notice_not_privmsg. }
     destruct (c_source c) as [name|] eqn:Hs.
-    + intros [= <-]. apply ans_known; auto. exact (message_request _ _ Hm Hr).
-    + intros [= <-]. apply ans_silent. auto.
+    2:{ intros [= <-]. apply ans_silent. auto. }
+    destruct (finger_silent v c) eqn:Hf.
+    + intros [= <-]. apply ans_silent. right. right. right. left. exists c. split; [exact Hm|].
+      apply finger_silent_iff. exact Hf.
+    + intros [= <-]. apply ans_known; auto; [exact (message_request _ _ Hm Hr)|].
+      rewrite <- finger_silent_iff. congruence.
   - destruct (streqb (c_command c) CTCP_ACTION) eqn:Ha.
     { intros [= <-]. apply ans_silent. apply streqb_spec in Ha.
       destruct (ev_source e) as [name|] eqn:Hs; [|auto].
-      right. right. right. exists c, name. auto. }
+      right. right. right. right. exists c, name. auto. }
     apply streqb_false in Ha.
     destruct (c_source c) as [name|] eqn:Hs.
     2:{ intros [= <-]. apply ans_silent. auto. }
@@ -558,27 +565,30 @@ Proof.
     { intros [= <-]. apply ans_silent. left. rewrite (message_reply _ _ Hm Hr). exact notice_not_privmsg. }
     destruct (is_valid_nick (to_rfc1459 name)) eqn:Hv.
     + intros [= <-]. apply ans_unknown with (c := c); auto. exact (message_request _ _ Hm Hr).
-    + intros [= <-]. apply ans_silent. right. right. right. exists c, name. auto.
+    + intros [= <-]. apply ans_silent. right. right. right. right. exists c, name. auto.
 Qed.
 
 Lemma answers_functional v e o1 o2 : answers v e o1 -> answers v e o2 -> o1 = o2.
 Proof.
   assert (Hsil : forall c name, ev_command e = PRIVMSG -> ctcp_message e c -> ev_source e = Some name ->
-            (known_query (c_command c) \/
-             (c_command c <> CTCP_ACTION /\ is_valid_nick (to_rfc1459 name) = true)) ->
+            ((known_query (c_command c) /\ ~ finger_unanswerable v (c_command c)) \/
+             (~ known_query (c_command c) /\ c_command c <> CTCP_ACTION /\ is_valid_nick (to_rfc1459 name) = true)) ->
             answers v e [] -> False).
-  { intros c name Hp Hm Hs Hor Ha. inversion Ha as [| | Hcase]. 
-    destruct Hcase as [H | [H | [H | (c' & name' & Hm' & Hs' & Hnk & Hcase)]]].
+  { intros c name Hp Hm Hs Hor Ha. inversion Ha as [| | Hcase].
+    destruct Hcase as [H | [H | [H | [(c' & Hm' & Hfu) | (c' & name' & Hm' & Hs' & Hnk & Hcase)]]]].
     - exact (H Hp).
     - apply H. exists c. exact Hm.
     - congruence.
     - rewrite (ctcp_message_functional _ _ _ Hm' Hm) in *.
+      destruct Hor as [(_ & Hnf) | (Hnk & _)]; [exact (Hnf Hfu)|].
+      destruct Hfu as (Hf & _). apply Hnk. rewrite Hf. exact finger_known.
+    - rewrite (ctcp_message_functional _ _ _ Hm' Hm) in *.
       assert (name' = name) by congruence. subst name'.
-      destruct Hor as [Hk | (Hna & Hv)]; [exact (Hnk Hk)|].
+      destruct Hor as [(Hk & _) | (_ & Hna & Hv)]; [exact (Hnk Hk)|].
       destruct Hcase as [Hc | Hc]; congruence. }
   intros H1 H2.
-  destruct H1 as [c name Hp Hm Hs Hk | c name Hp Hm Hs Hnk Hna Hv | Hcase1];
-  inversion H2 as [c' name' Hp' Hm' Hs' Hk' | c' name' Hp' Hm' Hs' Hnk' Hna' Hv' | Hcase2]; subst;
+  destruct H1 as [c name Hp Hm Hs Hk Hnf | c name Hp Hm Hs Hnk Hna Hv | Hcase1];
+  inversion H2 as [c' name' Hp' Hm' Hs' Hk' Hnf' | c' name' Hp' Hm' Hs' Hnk' Hna' Hv' | Hcase2]; subst;
   try (rewrite (ctcp_message_functional _ _ _ Hm' Hm) in * );
   try (assert (name' = name) by congruence; subst name').
   - reflexivity.
@@ -593,83 +603,26 @@ Proof.
 Qed.
 
 (* the CTCP stage with the default table writes exactly what the discipline allows *)
-Theorem stage_exact v e outs : connected v = true ->
-  (ctcp_stage (default_table v) e = Ok outs <-> answers v e outs).
+Theorem stage_exact v e outs :
+  ctcp_stage (default_table v) e = Ok outs <-> answers v e outs.
 Proof.
-  intros Hconn. split; [apply stage_answers; exact Hconn|].
-  intros Ha. destruct (stage_total v e Hconn) as (outs' & Hs). rewrite Hs. f_equal.
+  split; [apply stage_answers|].
+  intros Ha. destruct (stage_total_any v e) as (outs' & Hs). rewrite Hs. f_equal.
   apply (answers_functional v e); [|exact Ha]. apply stage_answers; assumption.
 Qed.
 
-(* ---- connected or not: the only panic is FINGER on a client without connection ---- *)
-
-Lemma finger_crash_unknown v c : ~ known_query (c_command c) -> finger_crash v c = false.
-Proof.
-  intros Hk. unfold finger_crash. destruct (streqb (c_command c) CTCP_FINGER) eqn:E.
-  - apply streqb_spec in E. exfalso. apply Hk. rewrite E. unfold known_query. cbn [In]. tauto.
-  - rewrite andb_false_r. reflexivity.
-Qed.
-
-Lemma ctcp_call_default_gen v c :
-  ctcp_call (default_table v) c = if finger_crash v c then Panic else call_spec v c.
-Proof.
-  unfold ctcp_call, call_spec. rewrite lookup_wildcard_default. cbn [rbind].
-  destruct (known_query_dec (c_command c)) as [Hk | Hk].
-  - destruct (lookup_default_known_gen v c Hk) as (h & -> & ->).
-    destruct (finger_crash v c); [reflexivity|]. destruct (default_reply v c); reflexivity.
-  - rewrite finger_crash_unknown by exact Hk.
-    rewrite lookup_default_unknown by exact Hk.
-    destruct (streqb (c_command c) CTCP_ACTION); [reflexivity|].
-    destruct (c_source c) as [name|]; [|reflexivity]. unfold source_id.
-    destruct (negb (c_reply c) && is_valid_nick (to_rfc1459 name)); [|reflexivity].
-    rewrite send_reply_ok by discriminate. reflexivity.
-Qed.
-
-Lemma call_spec_total v c : exists outs, call_spec v c = Ok outs.
-Proof.
-  unfold call_spec, default_reply. destruct (known_query_dec _).
-  - destruct (c_reply c); [eauto|]. destruct (c_source c); eauto.
-  - destruct (streqb _ _); [eauto|]. destruct (c_source c); [|eauto]. destruct (_ && _); eauto.
-Qed.
-
-Theorem stage_panic_iff v e :
-  ctcp_stage (default_table v) e = Panic <->
-  connected v = false /\ ev_command e = PRIVMSG /\
-  exists c name, ctcp_message e c /\ c_command c = CTCP_FINGER /\ ev_source e = Some name.
-Proof.
-  unfold ctcp_stage. destruct (decode_total e) as ([c|] & Hd); rewrite Hd; cbn [rbind].
-  2:{ split; [discriminate|]. intros (_ & _ & c & name & Hm & _). apply decode_exact in Hm. congruence. }
-  apply decode_exact in Hd. rewrite ctcp_call_default_gen.
-  destruct (finger_crash v c) eqn:Hf.
-  - split; [intros _|reflexivity]. unfold finger_crash in Hf.
-    apply andb_true_iff in Hf. destruct Hf as (Hf & Hs).
-    apply andb_true_iff in Hf. destruct Hf as (Hf & Hr).
-    apply andb_true_iff in Hf. destruct Hf as (Hc & Hk).
-    apply negb_true_iff in Hc, Hr. apply streqb_spec in Hk.
-    split; [exact Hc|]. split; [exact (message_request _ _ Hd Hr)|].
-    destruct (c_source c) as [name|] eqn:Hsrc; [|discriminate].
-    exists c, name. rewrite <- (message_source _ _ Hd). auto.
-  - destruct (call_spec_total v c) as (outs & ->). split; [discriminate|].
-    intros (Hc & Hp & c' & name & Hm & Hk & Hs). exfalso.
-    rewrite (ctcp_message_functional _ _ _ Hm Hd) in *.
-    unfold finger_crash in Hf. rewrite Hc, Hk, (message_source _ _ Hd), Hs in Hf.
-    destruct (c_reply c) eqn:Hr; [|discriminate Hf].
-    rewrite (message_reply _ _ Hd Hr) in Hp. discriminate Hp.
-Qed.
-
-(* a NOTICE never elicits anything, connected or not, whatever the environment *)
+(* a NOTICE never elicits anything, whatever the environment *)
 Theorem notice_silent v e : ev_command e = NOTICE -> ctcp_stage (default_table v) e = Ok [].
 Proof.
   intros Hn. unfold ctcp_stage. destruct (decode_total e) as ([c|] & Hd); rewrite Hd; cbn [rbind]; [|reflexivity].
   apply decode_exact in Hd. destruct Hd as (_ & _ & Hr & _). apply Hr in Hn.
-  rewrite ctcp_call_default_gen. unfold finger_crash, call_spec, default_reply. rewrite Hn.
-  cbn [negb andb]. rewrite andb_false_r. cbn [andb].
+  rewrite ctcp_call_default. unfold call_spec, default_reply. rewrite Hn. cbn [negb andb].
   destruct (known_query_dec _); [reflexivity|].
   destruct (streqb _ _); [reflexivity|]. destruct (c_source c); reflexivity.
 Qed.
 
-(* the readable form of the discipline *)
-Theorem stage_discipline v e outs : connected v = true ->
+(* the readable form of the discipline - connected or not *)
+Theorem stage_discipline_any v e outs :
   ctcp_stage (default_table v) e = Ok outs ->
   (length outs <= 1)%nat /\
   forall o, In o outs ->
@@ -679,8 +632,8 @@ Theorem stage_discipline v e outs : connected v = true ->
       (known_query (c_command c) \/ is_valid_nick (to_rfc1459 name) = true) /\
       is_answer_to name o.
 Proof.
-  intros Hconn Hs. apply stage_answers in Hs; [|exact Hconn].
-  destruct Hs as [c name Hp Hm Hsrc Hk | c name Hp Hm Hsrc Hnk Hna Hv | _].
+  intros Hs. apply stage_answers in Hs.
+  destruct Hs as [c name Hp Hm Hsrc Hk _ | c name Hp Hm Hsrc Hnk Hna Hv | _].
   - split; [cbn; lia|]. intros o [<- | []]. split; [exact Hp|].
     exists c, name. split; [apply decode_exact; exact Hm|]. split; [exact Hsrc|].
     split; [intros Ha; rewrite Ha in Hk; exact (action_unknown Hk)|]. split; [auto|].
@@ -699,15 +652,31 @@ Proof.
   - split; [cbn; lia|]. intros o [].
 Qed.
 
+(* the statements as they were before 187fc3e, when FINGER could panic on a client without
+   connection: kept under their names for the developments that use them *)
+Theorem stage_total v e : connected v = true -> exists outs, ctcp_stage (default_table v) e = Ok outs.
+Proof. intros _. apply stage_total_any. Qed.
+
+Theorem stage_discipline v e outs : connected v = true ->
+  ctcp_stage (default_table v) e = Ok outs ->
+  (length outs <= 1)%nat /\
+  forall o, In o outs ->
+    ev_command e = PRIVMSG /\
+    exists c name, decode_ctcp e = Ok (Some c) /\ ev_source e = Some name /\
+      c_command c <> CTCP_ACTION /\
+      (known_query (c_command c) \/ is_valid_nick (to_rfc1459 name) = true) /\
+      is_answer_to name o.
+Proof. intros _. apply stage_discipline_any. Qed.
+
 (* no reply loop: whatever the stage writes, and whoever it comes back from (the peer sees
    it with our nickname as source; a server may hand it back as an echo), a client running
-   the default table - in any environment, connected or not - answers nothing to it *)
-Theorem no_loop v e outs o : connected v = true ->
+   the default table - in any environment - answers nothing to it *)
+Theorem no_loop v e outs o :
   ctcp_stage (default_table v) e = Ok outs -> In o outs ->
   forall v' src params, ctcp_stage (default_table v') (mk_event src (ev_command o) params) = Ok [].
 Proof.
-  intros Hconn Hs Ho v' src params.
-  destruct (stage_discipline v e outs Hconn Hs) as (_ & Hd).
+  intros Hs Ho v' src params.
+  destruct (stage_discipline_any v e outs Hs) as (_ & Hd).
   destruct (Hd o Ho) as (_ & c & name & _ & _ & _ & _ & (Hn & _)).
   apply notice_silent. exact Hn.
 Qed.
@@ -738,10 +707,13 @@ Example stage_silent_server_unknown :
     (mk_event (Some (bs "irc.server.net")) PRIVMSG [bs "me"; [1] ++ bs "FOO" ++ [1]]) = Ok [].
 Proof. vm_compute. reflexivity. Qed.
 
-Example finger_disconnected_panics :
+Example finger_disconnected_silent :
   ctcp_stage (default_table (ex_env false))
-    (mk_event (Some (bs "nick")) PRIVMSG [bs "me"; [1] ++ bs "FINGER" ++ [1]]) = Panic.
-Proof. vm_compute. reflexivity. Qed.
+    (mk_event (Some (bs "nick")) PRIVMSG [bs "me"; [1] ++ bs "FINGER" ++ [1]]) = Ok [] /\
+  ctcp_stage (default_table (ex_env true))
+    (mk_event (Some (bs "nick")) PRIVMSG [bs "me"; [1] ++ bs "FINGER" ++ [1]])
+    = Ok [notice (bs "nick") ([1] ++ bs "FINGER Real -- idle 1s" ++ [1])].
+Proof. vm_compute. split; reflexivity. Qed.
 
 Example not_ctcp_sat :
   not_ctcp_cause (mk_event None PRIVMSG [bs "me"; [1] ++ bs "ping" ++ [1]]).
@@ -816,19 +788,19 @@ Proof.
   cbn [stage_all]. rewrite (notice_silent v e He), IH. reflexivity.
 Qed.
 
-Theorem stage_all_discipline v inbox outs : connected v = true ->
+Theorem stage_all_discipline v inbox outs :
   stage_all (default_table v) inbox = Ok outs ->
   (length outs <= length (filter (fun e => streqb (ev_command e) PRIVMSG) inbox))%nat /\
   Forall (fun o => ev_command o = NOTICE /\ ev_source o = None /\
                    exists e name, In e inbox /\ ev_command e = PRIVMSG /\ ev_source e = Some name /\
                                   is_answer_to name o) outs.
 Proof.
-  intros Hconn. revert outs. induction inbox as [|e r IH]; intros outs; cbn [stage_all].
+  revert outs. induction inbox as [|e r IH]; intros outs; cbn [stage_all].
   - intros [= <-]. split; [cbn; lia | constructor].
-  - destruct (stage_total v e Hconn) as (o & Ho). rewrite Ho. cbn [rbind].
+  - destruct (stage_total_any v e) as (o & Ho). rewrite Ho. cbn [rbind].
     destruct (stage_all (default_table v) r) as [os|] eqn:Hr; cbn [rbind]; [|discriminate].
     intros [= <-]. destruct (IH os eq_refl) as (Hlen & Hall).
-    destruct (stage_discipline v e o Hconn Ho) as (Hle & Hshape).
+    destruct (stage_discipline_any v e o Ho) as (Hle & Hshape).
     split.
     + rewrite app_length. cbn [filter].
       destruct o as [|o1 o']; [destruct (streqb _ _); cbn [length]; lia|].
@@ -846,20 +818,20 @@ Qed.
 (* Two clients can never drive each other into a reply loop: whatever arrives at A, the
    exchange is over after A's own answers - B answers nothing to them - however many rounds
    are allowed; the answers are at most one per request in the inbox. *)
-Theorem volley_ends va vb na nb inbox rounds : connected va = true -> (2 <= rounds)%nat ->
+Theorem volley_ends va vb na nb inbox rounds : (2 <= rounds)%nat ->
   exists outs, stage_all (default_table va) inbox = Ok outs /\
     volley rounds va vb na nb inbox = Ok (outs, true).
 Proof.
-  intros Hconn Hr.
+  intros Hr.
   assert (Htot : exists outs, stage_all (default_table va) inbox = Ok outs).
   { induction inbox as [|e r IH]; [eexists; reflexivity|]. cbn [stage_all].
-    destruct (stage_total va e Hconn) as (o & ->). destruct IH as (os & ->). cbn [rbind]. eauto. }
+    destruct (stage_total_any va e) as (o & ->). destruct IH as (os & ->). cbn [rbind]. eauto. }
   destruct Htot as (outs & Houts). exists outs. split; [exact Houts|].
   destruct rounds as [|[|n]]; try lia.
   destruct inbox as [|e0 r0].
   { cbn in Houts. injection Houts as <-. reflexivity. }
   cbn [volley]. rewrite Houts. cbn [rbind].
-  destruct (stage_all_discipline va _ outs Hconn Houts) as (_ & Hall).
+  destruct (stage_all_discipline va _ outs Houts) as (_ & Hall).
   destruct (map (as_received na) outs) as [|m ms] eqn:Hm.
   { cbn [volley rbind fst snd]. rewrite app_nil_r. reflexivity. }
   rewrite <- Hm. 
@@ -876,4 +848,18 @@ Example volley_sat :
      mk_event (Some (bs "b")) PRIVMSG [bs "a"; [1] ++ bs "NOPE" ++ [1]]]
   = Ok ([notice (bs "b") ([1] ++ bs "PING 1" ++ [1]);
          notice (bs "b") ([1] ++ bs "ERRMSG that is an unknown CTCP query" ++ [1])], true).
+Proof. vm_compute. reflexivity. Qed.
+
+(* ---- RunHandlers: what handlers do to their copy does not reach the CTCP stage ---- *)
+
+Theorem run_handlers_isolated hs t e :
+  run_handlers hs t e = (c <- ctcp_stage t e ;; Ok (flat_map (fun h => snd (h e)) hs ++ c)).
+Proof. reflexivity. Qed.
+
+(* a handler that rewrites source and parameters of its event: the answer goes to alice[m] *)
+Example run_handlers_mutator :
+  let mutate : ev_handler := fun e => (mk_event (Some (bs "alice")) (ev_command e) [bs "#x"; bs "hijacked"], []) in
+  run_handlers [mutate] (default_table (ex_env true))
+    (mk_event (Some (bs "alice[m]")) PRIVMSG [bs "me"; [1] ++ bs "PING 7" ++ [1]])
+  = Ok [notice (bs "alice{m}") ([1] ++ bs "PING 7" ++ [1])].
 Proof. vm_compute. reflexivity. Qed.
